@@ -111,7 +111,7 @@ def entry_points():
 
 def run(c):
     c.rule = ("per public parsing entry point: a corpus of valid documents (repository fixtures + hand-written) x structure-aware mutations (truncation at every position, byte flips, "
-              "non-ASCII / non-UTF-8 / NUL insertion, duplicated and deleted delimiters, deep nesting, long lines, numeric extremes, random bytes); one call per case under a panic hook, "
+              "non-ASCII / non-UTF-8 / NUL insertion, duplicated and deleted delimiters, deep nesting, long lines, numeric extremes, random bytes, one structural unit - line, record, element, document - repeated up to 250 KB / 1 MB); one call per case under a panic hook, "
               "exit-status journal and a no-progress watchdog; lanes rel and overflow-checks. Class = (entry point, mutation kind, lane); non-trivial = any mutation.")
     c.assumptions += ["string-typed entry points receive valid UTF-8 (lossy conversion of the mutated bytes); byte-typed entry points receive the raw mutated bytes",
                       "no return within 20 s for inputs that normally return in microseconds is reported as non-termination suspected"]
@@ -124,10 +124,12 @@ def run(c):
     # the no-progress bound is stated for inputs up to 64 KiB (several scanners are quadratic in the input length:
     # slow on half a megabyte, but terminating); longer mutants are cut
     cap = 65536 if c.quick else 131072
+    # repetition bombs (one structural unit repeated) may exceed the cap: for them only a crash is judged, not the time taken
+    BOMB_SIZES = (9000, 60000, 250000) if c.quick else (9000, 60000, 250000, 1000000)
 
-    def add(name, op, fields, kind, doc):
+    def add(name, op, fields, kind, doc, nocap=False):
         nonlocal cid
-        if len(doc) > cap:
+        if len(doc) > cap and not nocap:
             doc = doc[:cap]
             fields = [f[:cap] if isinstance(f, (bytes, bytearray)) else f for f in fields]
         cid += 1
@@ -144,6 +146,9 @@ def run(c):
             b0, d0 = pool[0]
             for kind, m in mutate.truncations(d0):
                 add(name, op, [b0, m], kind, m)
+            for b, d in pool:
+                for kind, m in mutate.repetitions(d, BOMB_SIZES):
+                    add(name, op, [b, m], kind, m, nocap=True)
             for i in range(per_ep):
                 b, d = rng.choice(pool)
                 kind, m = mutate.mutate(d, rng)
@@ -155,6 +160,9 @@ def run(c):
         for kind, m in mutate.truncations(d0, cap=None if len(d0) < 600 else 400):
             add(name, op, mk(m), kind, m)
         add(name, op, mk(b""), "empty", b"")
+        for d in docs[:3]:
+            for kind, m in mutate.repetitions(d, BOMB_SIZES):
+                add(name, op, mk(m), kind, m, nocap=True)
         for d in docs[:4]:
             for kind, m in mutate.numeric_cross(d):
                 add(name, op, mk(m), kind, m)
@@ -198,6 +206,9 @@ def run(c):
             c.cls(name, kind.split("+")[0], lane)
             c.count("outcome_" + o.outcome)
             if o.outcome == "skipped":
+                continue
+            if o.outcome == "timeout" and len(doc) > cap:
+                c.count("slow_on_inputs_above_the_size_cap (not judged)")
                 continue
             if o.outcome in ("panic", "died", "timeout"):
                 c.crash(name, o, cs, {"lane": lane, "mutation": kind, "input_b64": base64.b64encode(doc[:4000]).decode(), "input_len": len(doc)})
